@@ -980,17 +980,29 @@ func (r *c17Run) transient() bool {
 }
 
 // c17ExecSettled = c17Exec, but a transient outcome is only believed after the same job was
-// re-run ALONE (no other worker of this harness running) with four times the deadline; what the
+// re-run ALONE (no other worker of this harness running) with three times the deadline; what the
 // re-run shows is the outcome. Deadlocks found by the worker itself (every routine blocked, twice)
 // and Go fatal errors / panics are facts about the run, not about the load, and are not re-run.
 func c17ExecSettled(bin string, procs int, src string, yieldSeed uint64, stallS int, deadline time.Duration, race bool) *c17Run {
 	run := c17Exec(bin, procs, src, yieldSeed, stallS, deadline, race)
-	for attempt := 0; attempt < 2 && run.transient(); attempt++ {
-		c17Retried.Add(1)
-		c17Alone(func() { run = c17Exec(bin, procs, src, yieldSeed, stallS, 4*deadline, race) })
+	if run.transient() {
+		c17Alone(func() {
+			if c17SettledTransient.Load() {
+				// a transient outcome was already confirmed by a re-run alone: the verdict of the check
+				// is settled, further re-runs (minutes each, one at a time) cannot change it
+				return
+			}
+			c17Retried.Add(1)
+			run = c17Exec(bin, procs, src, yieldSeed, stallS, 3*deadline, race)
+			if run.transient() {
+				c17SettledTransient.Store(true)
+			}
+		})
 	}
 	return run
 }
+
+var c17SettledTransient atomic.Bool
 
 func c17ClassifyDeath(stderr string, err error) (string, string) {
 	for _, line := range strings.Split(stderr, "\n") {
@@ -2646,7 +2658,7 @@ func c17RunCase(c *lib.Ctx, cs *c17Case, bin string, procs int, yieldSeed uint64
 		ref := c17ExecSettled(bin, 1, p.source(true), yieldSeed, 60, 5*time.Minute, false)
 		if ref.Timeout {
 			// the sequential reference run of a small program did not finish even when run alone with
-			// four times the limit: the machine, not slip
+			// three times the limit: the machine, not slip
 			fmt.Fprintln(os.Stderr, "c17: sequential reference run timed out twice (machinery)")
 			os.Exit(2)
 		}
